@@ -11,7 +11,7 @@ EXPLANATION = ('Index exclusivity and amounts are invariants over reachable pool
                '(R04.2) when a task future ends its allocation is handed to prefill_loop, which reuses or releases it, and try_start_task either '
                'stores or returns it; (R04.3) the free-resource summary is updated together with the pools and only the allocator writes them; '
                '(R04.4) the allocation shown to the task is the one stored for it; (R16.1) admission and grant agree.')
-NOT_DECIDED = ['index exclusivity, <=100% per index, sums <= size, "exactly the requested amount" (invariants over pool states / numbers)']
+NOT_DECIDED = ['index exclusivity, <=100% per index, sums <= size, "exactly the requested amount" as invariants over pool states / numbers (decided: pairing of claim and release, summary mirrors pools, fraction bookkeeping shapes R04.6-R04.9, label map agreement R04.8)']
 RELATED = {'C16': ['R16.2']}
 ASSUMPTIONS = []
 W = T + 'worker::'
